@@ -200,8 +200,11 @@ impl Core {
             if let Some(query) = self.iterative_queries.remove(id) {
                 self.cache_iterative_query(&query, closest_nodes);
 
-                should_ping_alleged_new_address =
-                    self.update_address_votes_from_iterative_query(&query);
+                // More than one query can be done in the same tick, and only the first of them
+                // sees the address as new: don't let the others undo its request for a ping.
+                if let Some(new_address) = self.update_address_votes_from_iterative_query(&query) {
+                    should_ping_alleged_new_address = Some(new_address);
+                }
             };
         }
 
